@@ -972,6 +972,46 @@ def gen_ReconFacts():
     return "".join(out), {rc.path: rc.digest}
 
 
+def gen_UploadFacts():
+    """Facts and pins for the upload session's task handling (C16)."""
+    us = Src(os.path.join(REPO, "data/src/file_upload_session.rs"))
+    si = Src(os.path.join(REPO, "data/src/shard_interface.rs"))
+    di = Src(os.path.join(REPO, "data/src/deduplication_interface.rs"))
+    out = [PRELUDE]
+    rg = us.fn_body("register_new_xorb_for_upload")
+    if "while let Some(result) = upload_tasks.try_join_next() {" not in rg:
+        raise TranslateError("register_new_xorb_for_upload: reaping loop changed")
+    for p_ in ["let upload_permit = acquire_upload_permit().await?;", "self.xorb_upload_tasks.lock().await.spawn(async move {",
+               ".put(&cas_prefix, &xorb_hash, xorb_data, chunks_and_boundaries) .await?;"]:
+        if p_ not in rg:
+            raise TranslateError("register_new_xorb_for_upload changed: %r" % p_)
+    fi = us.fn_body("finalize_impl")
+    sticky_reg = "self.check_no_xorb_upload_failed()?;" in rg and rg.index("self.check_no_xorb_upload_failed()?;") < rg.index("try_join_next")
+    sets = "self.xorb_upload_failed.store(true, Ordering::SeqCst); return Err(e);" in rg
+    sticky_fin = "self.check_no_xorb_upload_failed()?;" in fi and fi.index("self.check_no_xorb_upload_failed()?;") < fi.index("process_aggregated_data_as_xorb")
+    if sticky_reg and sets and sticky_fin:
+        if "if self.xorb_upload_failed.load(Ordering::SeqCst) { return Err(" not in us.fn_body("check_no_xorb_upload_failed"):
+            raise TranslateError("check_no_xorb_upload_failed changed")
+        out.append("Definition upload_failure_is_sticky : bool := true.\n")
+    elif "result??;" in rg and not (sticky_reg or sets or sticky_fin):
+        out.append("Definition upload_failure_is_sticky : bool := false.\n")
+    else:
+        raise TranslateError("register_new_xorb_for_upload / finalize_impl: failure handling not recognised")
+    if "while let Some(result) = upload_tasks.join_next().await { result??; }" not in fi:
+        raise TranslateError("finalize_impl: join loop changed")
+    rn = di.fn_body("register_new_xorb")
+    if not (rn.find("add_cas_block(xorb.cas_info.clone())") < rn.find("register_new_xorb_for_upload(xorb)") and rn.find("add_cas_block(") >= 0):
+        raise TranslateError("register_new_xorb: record-then-register order changed")
+    up = si.fn_body("upload_and_register_session_shards")
+    for p_ in [".upload_shard(&shard_prefix, &si.shard_hash, false, &data, &salt) .await?;", "while let Some(jh) = shard_uploads.join_next().await { jh??; }"]:
+        if p_ not in up:
+            raise TranslateError("upload_and_register_session_shards changed: %r" % p_)
+    if not up.index(".upload_shard(") < up.index("si.export_with_expiration("):
+        raise TranslateError("upload_and_register_session_shards: a shard is moved to the cache before its upload succeeded")
+    out.append("Definition shard_upload_errors_propagated : bool := true.\n")
+    return "".join(out), {x.path: x.digest for x in (us, si, di)}
+
+
 GROUPS = {
     "GearTable": gen_GearTable,
     "ChunkConsts": gen_ChunkConsts,
@@ -984,4 +1024,5 @@ GROUPS = {
     "CrashFacts": gen_CrashFacts,
     "SfFacts": gen_SfFacts,
     "ReconFacts": gen_ReconFacts,
+    "UploadFacts": gen_UploadFacts,
 }
